@@ -23,6 +23,14 @@ CHECKS = {
          "Generated-input search over a finite mutation family (truncations, byte overwrites, bit flips, length-field saturation, block dup/removal) around ~700 sample files and harness-written files x home format / probe / any registered format x force; the whole family is enumerated for small files on their home format (<=128 bytes quick, <=512 thorough), the rest is sampled by rapid (1.6M quick); a sample goes through the whole CLI (dv, -V, torepr). Oracle: tree or decode error, never a Go panic or process death (worker journal attributes deaths, search continues behind them). 'No fault in N explored inputs of the stated family', not absence.",
          "Trusted: Go's recover/runtime fault reporting. Non-termination is reported as suspected_hang, not decided. Force is not combined with the probe group or formats nesting it (combinatorial by construction) nor with bplist/midi (forced decodes observed not to finish). OOM deaths count only when reproduced alone under 48 GiB.",
          "DESIGN.md 2/C06"),
+ "C13": ("enumeration of function x boundary-value tuples from the run-time registry, crash-isolated batched evaluation",
+         "Generated-case search: all 751 name/arity pairs fq adds (53 Go registrations incl. `_` prefixed + public jq definitions = scope minus the reference engine's builtins) x a pool of 66 boundary values as input and arguments: arity 0 every input, arity 1 the full product in the thorough tier and a seed-derived covering sample in quick, arity >= 2 seed-derived tuples; evaluated as `INPUT | try [limit(50; F(ARGS))] catch .` in batches of 120 inside workers whose death is attributed to the open batch, narrowed to one call on restart, excluded and searched behind. Violation = Go panic reaching the harness or process death. 'No fault in N explored calls', not absence.",
+         "Trusted: Go's recover/runtime fault reporting; the virtual OS (empty stdin, readline EOF). jq-level non-termination is timeout_inconclusive; option values whose honouring needs gigabytes of output are not in the pool; OOM deaths count only when reproduced alone under 48 GiB.",
+         "DESIGN.md 2/C13"),
+ "C18": ("rapid-drawn concurrent schedules and order permutations of decode jobs vs first-run/lone-run hashes under the race detector",
+         "Generated-schedule search: rapid draws sequences of batches of 1..16 goroutines, each running decode+render jobs (canonical dump of every value of the tree; dv, -V and torepr through the whole CLI, per-format options set/unset, failing decodes, the same job many times) with their own Interp on the shared registry, built with -race; every result hash must equal the job's first sequential run, sequential permutations must not change results, and a per-run sample is compared with a lone run in a fresh process. The harness does not own the Go scheduler: interleavings are sampled by repetition.",
+         "Trusted: sha256 of the canonical dump, Go's race detector. Schedule-dependent failures may not replay deterministically (replay re-runs 10 times).",
+         "DESIGN.md 2/C18"),
 }
 
 NOT_YET = {}
